@@ -460,13 +460,23 @@ pub fn subjects() -> Vec<Subject> {
                 rform::<$t>("slice", |r, vs| r.reserve_items(vs.iter().map(|v| v.as_slice()))),
             ]
         };
+        // additionally: announce through the read items of another region holding the batch
+        ($t:ty, read_items) => {{
+            let mut f = slice_reserve_forms!($t);
+            f.push(rform::<$t>("read_items", |r, vs| {
+                let mut tmp = <$t>::default();
+                let idxs: Vec<_> = vs.iter().map(|v| tmp.push(v)).collect();
+                r.reserve_items(idxs.iter().map(|i| tmp.index(*i)));
+            }));
+            f
+        }};
     }
     macro_rules! slice_subject {
         ($name:literal, $t:ty, $e:ty $(, $extra:ident)*) => {{
             type T = $t;
             let mut c = Caps::<T>::default();
             c.forms = slice_forms!(T, $e);
-            c.reserve_forms = slice_reserve_forms!(T);
+            c.reserve_forms = slice_reserve_forms!(T, read_items);
             clone_caps!(c, T);
             serde_caps!(c, T);
             item_caps!(c, T);
